@@ -1,7 +1,7 @@
 (* C17 - With a root folder set, nothing outside it is ever opened.
    Only statements here; every proof is one [exact] of a lemma from Proofs/. *)
 From PdV.Model Require Import Load.
-From PdV Require Import LoadProofs PathProofs.
+From PdV Require Import LoadProofs PathProofs FsLoadProofs.
 
 (* a specification resolves to a canonical path (no component is a symbolic link) that has the
    root as a prefix - or it is a load error; for every file system, source folder and specification *)
@@ -28,6 +28,19 @@ Theorem C17_nothing_outside :
 Proof. exact fs_load_contained. Qed.
 Print Assumptions C17_nothing_outside.
 
+(* The same with the fuel question settled (C17_nothing_outside alone says nothing about a run that
+   exhausts its fuel): given the explicit bound of C16_fs_terminates the load ends - completed, load
+   error or repeated location - and everything it opened, listed or read from is canonical and under
+   the root. *)
+Theorem C17_nothing_outside_total :
+  forall x rfuel r matches allow_include raising fuel roots,
+    fs_fuel_bound x matches allow_include roots <= fuel ->
+    let res := fs_load x rfuel (Some r) matches allow_include raising fuel roots in
+    res <> OutOfFuel /\
+    Forall (ev_ok path fblock (fun p => is_prefix r p = true /\ canonical (to_fs x) p)) (evs_of path litem fblock res).
+Proof. exact fs_load_contained_total. Qed.
+Print Assumptions C17_nothing_outside_total.
+
 (* non-vacuity: an include that escapes through a symlink is a load error, before any access *)
 Example C17_example :
   let n (l : list N) : str := l in
@@ -39,5 +52,5 @@ Example C17_example :
   match fs_load x 50 (Some [r]) (fun _ => true) true false 100 [n [47; 102]%N] with
   | Aborted _ e => e = [Visit [r; f]]
   | _ => False
-  end.
-Proof. vm_compute. reflexivity. Qed.
+  end /\ fs_fuel_bound x (fun _ => true) true [n [47; 102]%N] <= 100.
+Proof. vm_compute. split; [reflexivity|repeat constructor]. Qed.
